@@ -149,9 +149,19 @@ def check_self_contained(netlist, objs_of_netlist, disc, name_of, P):
 
 def check_wire_endpoints(netlist, disc, name_of, P):
     """Every pin listed by a wire of a definition of the netlist is a pin of one of that definition's ports or of
-    one of its current children (a wire never keeps the pin of an instance that was taken out of the definition)."""
+    one of its current children (a wire never keeps the pin of an instance that was taken out of the definition),
+    and every connected pin of a port or child of the definition sits on a wire of a cable OF that definition."""
     for lib in netlist.libraries:
         for d in lib.definitions:
+            pins = [ip for port in d.ports for ip in port.pins] + [op for c in d.children for op in c.pins.values()]
+            for p in pins:
+                wr = p.wire
+                if wr is not None and (wr.cable is None or wr.cable.definition is not d):
+                    raise Violation(P + ".pin_on_foreign_wire", disc,
+                                    "a pin of %s is connected to a wire whose cable %s" % (
+                                        name_of(d), "does not exist" if wr.cable is None else
+                                        "belongs to %s" % ("no definition" if wr.cable.definition is None
+                                                           else name_of(wr.cable.definition))))
             for cab in d.cables:
                 for wr in cab.wires:
                     for p in wr.pins:
